@@ -103,6 +103,9 @@ func init() {
 				ds[k].WText = r.Pick(nonFinite)
 				ds[k].Fill()
 			}
+			if r.Chance(1, 8) {
+				malformDef(r, &ds[r.Intn(len(ds))], true)
+			}
 			return scriptIn{Defs: ds, Flip: r.U64() % 1000000, Oracle: rt.Oracle(ds)}
 		},
 		Run: func(raw json.RawMessage) (interface{}, error) {
